@@ -636,6 +636,16 @@ def register(cat, simple, binary, with_scalar, _perm, _dims_subset, gen_ttm, run
             st["rank"] = c.obj(k).ncomponents
             st["init"] = "ktensor"
             st["guess_operands"] = [1]
+        elif c.g.random() < 0.4:
+            # the guess as a list (or tuple) of caller-owned factor matrices, in either memory layout
+            rk = c.g.randint(1, 2)
+            mats = [rand_array(c.g, (s, rk), 0.1, 1.0) for s in sh]
+            lay = c.g.choice(["F", "C", "mixed"])
+            ids = [c.fresh(np.asfortranarray(m) if (lay == "F" or (lay == "mixed" and j % 2 == 0)) else np.ascontiguousarray(m)) for j, m in enumerate(mats)]
+            st["operands"] = [r] + ids
+            st["rank"] = rk
+            st["init"] = c.g.choice(["list", "tuple"])
+            st["n_init"] = len(ids)
         if c.heap.kinds[r] == "T" and c.g.random() < 0.3:
             st["solver"] = "SGD"
         if c.heap.kinds[r] == "T" and st["solver"] == "LBFGSB" and c.g.random() < 0.4:
@@ -651,6 +661,10 @@ def register(cat, simple, binary, with_scalar, _perm, _dims_subset, gen_ttm, run
         from pyttb.gcp.optimizers import LBFGSB, SGD
 
         init = ops[1] if st["init"] == "ktensor" else "random"
+        if st["init"] in ("list", "tuple"):
+            init = list(ops[1 : 1 + st["n_init"]])
+            if st["init"] == "tuple":
+                init = tuple(init)
         if st["solver"] == "LBFGSB":
             opt = LBFGSB(maxiter=2, iprint=-1)
         else:
